@@ -21,10 +21,10 @@ import (
 
 func init() {
 	core.Register(&core.Prop{
-		ID:      "C17",
+		ID:       "C17",
 		MaxBatch: 150,
-		Level:   "exploration",
-		Workers: 16,
+		Level:    "exploration",
+		Workers:  16,
 		Rule: "seeded histories over 2-3 collections created in a FRESH store (collection-number allocation is part of the mechanism; in every second case the collections are created at the same moment with delays injected at the allocation's database commands), overlapping keys and several clients per collection; after every request the store diff is partitioned by owner (collection number in -_-Datatypes / -_-Operations / -_-Snapshots / -_-Clients, name for user collections): a request issued under collection A may touch only A-owned documents; foreign requests (a client registered in A naming collection B; a client of A first sending a client message that names B - which must be refused without changing anything - and then asking for B's datatype; packs carrying the DUID of a datatype of B with every option-bit combination, sent by a client at sequence 1 and by one further along) must leave B-owned documents untouched and must not return operations of B; a REST patch may touch only the collection it names; the same key in two collections yields two datatypes, and the notifications a sync causes are published on <its own collection>/<key> with the id of that collection's datatype (never on the topic of the same key in another collection); ResetCollection(A) at random points removes every A-owned datatype, operation, snapshot and client document and the user collection A while the dump restricted to the other collections is identical; " +
 			"non-trivial = at least two collections hold the same key and at least one request crossed the collection boundary; distinct = hash of the step script",
 		Assumptions: []string{
